@@ -236,7 +236,8 @@ impl Iterator for Iter<'_> {
 
     #[inline(always)]
     fn size_hint(&self) -> (usize, Option<usize>) {
-        (self.efl.len(), Some(self.efl.len()))
+        let remaining = self.efl.len() - self.pos;
+        (remaining, Some(remaining))
     }
 }
 
